@@ -1,7 +1,7 @@
 #!/usr/bin/env bash
 # usage: run_suite.sh <worktree dir>   -- runs the repository's full test suite there and reports
 # which tests of the known-stable set did not pass (empty list = suite passes as before).
-# Stable tests that fail in the full (heavily parallel) run are retried alone up to 6 times:
+# Stable tests that fail in the full (heavily parallel) run are retried alone up to 12 times, 3 s apart:
 # several are timing-sensitive and fail only under machine load.
 set -u
 D=${1:?worktree}
@@ -29,7 +29,7 @@ while read -r T; do
   BIN=$(echo "$T" | awk -F'::' '{print $2}'); NAME=$(echo "$T" | sed -E 's/^[^:]+::[^:]+:://')
   if [ -f "$D/tests/$BIN.rs" ]; then FILTER="binary(=$BIN) & test(=$NAME)"; else FILTER="test(=${T#saorsa-core::})"; fi
   OK=0
-  for i in 1 2 3 4 5 6; do
+  for i in 1 2 3 4 5 6 7 8 9 10 11 12; do sleep 3;
     if cargo nextest run --workspace --offline --test-threads 1 -E "$FILTER" >>"$D/suite_retry.log" 2>&1; then OK=1; break; fi
   done
   if [ $OK -eq 1 ]; then echo "RETRIED-OK (alone): $T"; else echo "NOT PASSING: $T"; STILL=1; fi
